@@ -258,6 +258,10 @@ def gen_uc_case(rng, with_profiles, dst_daily=False):
         for kf in [k for k in a if k.startswith(('start_ramp_', 'shutdown_ramp_'))]:
             a[kf] = [v for v in a[kf] for _ in range(2)]
         a['ramp_freq'] = HALF[g['freq']]
+    COARSER = {'15min': ['30min', 'h'], '30min': ['h'], 'h': ['2h']}
+    if a.get('start_ramp_lower_bounds') and not dst_daily and g['freq'] in COARSER and a.get('ramp_freq') == g['freq'] and rng.random() < 0.3:
+        # the profiles given in a COARSER frequency than the grid (e.g. per hour on a 15-minute grid): EAO interpolates between the profile points
+        a['ramp_freq'] = gen.pick(rng, COARSER[g['freq']])
     if rng.random() < 0.12:
         # a minimum runtime / downtime that reaches beyond the horizon
         st_ = float(pd.Timedelta(to_offset(g['freq'])) / pd.Timedelta(1, g['unit']))
@@ -327,6 +331,18 @@ def run_m6bc(rng, tier, case, reference):
                 a[k] = a[k][::q]
             a['ramp_freq'] = g['freq']
             case.feature('profile_in_finer_frequency')
+    if a.get('start_ramp_lower_bounds') and rf_ and rf_ != g['freq']:
+        ratio_c = float(pd.Timedelta(to_offset(rf_)) / pd.Timedelta(to_offset(g['freq'])))
+        qc = int(round(ratio_c))
+        if qc >= 2 and abs(ratio_c - qc) < 1e-12 and a is a_given:
+            # profiles in a coarser frequency: the k-th profile value is reached at the END of the k-th profile interval, the grid steps in between follow the
+            # straight line between the profile points (the first interval stays at the first value) - so the ramp ends exactly on its last value
+            a = dict(a)
+            for k in [k for k in a if k.startswith(('start_ramp_', 'shutdown_ramp_'))]:
+                K_ = len(a[k])
+                a[k] = [float(v) for v in np.interp(np.arange(1, K_ * qc + 1), (np.arange(K_) + 1) * qc, np.asarray(a[k], float))]
+            a['ramp_freq'] = g['freq']
+            case.feature('profile_in_coarser_frequency')
     ck = Clock(g)
     T = ck.T
     step = float(ck.dt[0])
